@@ -30,7 +30,7 @@ structure ValidTimely (sg : Signer) (buf : Bytes) (now : Nat) (rdok : Bool) : Pr
     algIs r.data.algName sg.alg = true ∧           -- with the key's algorithm
     outLen sg.alg ≤ r.data.mac.length ∧            -- full-length MAC
     sg.macOK tbs r.data.mac = true ∧               -- that verifies over exactly `tbs`
-    r.data.fudge ≤ r.data.time ∧                   -- (else the real code has panicked)
+    -- `time.saturating_sub(fudge) ≤ now < time + fudge` (`-` on `Nat` is the saturating one)
     r.data.time - r.data.fudge ≤ now ∧ now < r.data.time + r.data.fudge
 
 theorem verifyMessageByte_ok {sg : Signer} {buf : Bytes} {prev : Option Bytes} {first rdok : Bool}
@@ -38,7 +38,6 @@ theorem verifyMessageByte_ok {sg : Signer} {buf : Bytes} {prev : Option Bytes} {
     ∃ tbs r, signedBitmessageToBuf buf prev first rdok = .ok (tbs, r) ∧
       Name.eq r.name sg.name = true ∧ algIs r.data.algName sg.alg = true ∧
       outLen sg.alg ≤ r.data.mac.length ∧ sg.macOK tbs r.data.mac = true ∧
-      r.data.fudge ≤ r.data.time ∧
       v = { mac := r.data.mac, time := r.data.time,
             lo := r.data.time - r.data.fudge, hi := r.data.time + r.data.fudge } := by
   unfold verifyMessageByte at h
@@ -50,16 +49,13 @@ theorem verifyMessageByte_ok {sg : Signer} {buf : Bytes} {prev : Option Bytes} {
       · exact absurd h (by simp)
       · split at h
         · exact absurd h (by simp)
-        · split at h
-          · exact absurd h (by simp)
-          · rename_i h1 h2 h3 h4
-            refine ⟨tbv, r, hs, ?_, ?_, ?_, ?_, ?_, ?_⟩
-            · cases hn : Name.eq r.name sg.name <;> simp_all
-            · cases hn : Name.eq r.name sg.name <;> cases ha : algIs r.data.algName sg.alg <;> simp_all
-            · omega
-            · simpa using h3
-            · omega
-            · simpa using h.symm
+        · rename_i h1 h2 h3
+          refine ⟨tbv, r, hs, ?_, ?_, ?_, ?_, ?_⟩
+          · cases hn : Name.eq r.name sg.name <;> simp_all
+          · cases hn : Name.eq r.name sg.name <;> cases ha : algIs r.data.algName sg.alg <;> simp_all
+          · omega
+          · simpa using h3
+          · simpa using h.symm
   · exact absurd h (by simp)
   · exact absurd h (by simp)
 
@@ -73,11 +69,11 @@ theorem authorizedTsig_ok {cfg : ZoneCfg} {tsig : SigRec} {buf : Bytes} {now : N
   · rename_i sg hf
     split at h
     · rename_i v hv
-      obtain ⟨tbs, r, hs, h1, h2, h3, h4, h5, hv'⟩ := verifyMessageByte_ok hv
+      obtain ⟨tbs, r, hs, h1, h2, h3, h4, hv'⟩ := verifyMessageByte_ok hv
       split at h
       · rename_i hwin
         subst hv'
-        exact ⟨sg, hf, ⟨tbs, r, hs, h1, h2, h3, h4, h5, hwin.1, hwin.2⟩⟩
+        exact ⟨sg, hf, ⟨tbs, r, hs, h1, h2, h3, h4, hwin.1, hwin.2⟩⟩
       · simp only [Outcome.ok.injEq] at h; subst h; simp [Auth.ok, NOTAUTH] at hok
     · simp only [Outcome.ok.injEq] at h; subst h; simp [Auth.ok, NOTAUTH] at hok
     · exact absurd h (by simp)
